@@ -19,7 +19,8 @@ chess = { path = "$WT" }
 EOT
 cp /repo/Cargo.lock $DC/ 2>/dev/null
 cp $D/demo.rs $DC/src/main.rs
-run_demo() { (cd $DC && timeout 900 cargo run --release --offline >/tmp/vs/demo.out 2>&1; echo $?); }
+DEMOFLAGS=""; grep -q '"build": *"bmi2"' $D/meta.json 2>/dev/null && DEMOFLAGS="-C target-feature=+bmi2"
+run_demo() { (cd $DC && RUSTFLAGS="$DEMOFLAGS" timeout 900 cargo run --release --offline >/tmp/vs/demo.out 2>&1; echo $?); }
 clean_rc=$(run_demo); clean_tail=$(tail -2 /tmp/vs/demo.out | tr '\n' ' ')
 git -C $WT apply $D/patch.diff || { echo "RESULT patch-does-not-apply"; exit 1; }
 tests=$(cd $WT && timeout 1500 cargo test --offline 2>&1 | grep "test result" | tr '\n' ' ')
